@@ -19,8 +19,9 @@ EXPLANATION = (
     'STRUCTURAL (for every message): for ALL classes defining encode and decode (private helpers followed, class constants '
     'resolved) the multiset of fixed-size struct codes the writer packs equals the multiset the reader unpacks (table '
     'agreement; four documented exceptions); Name.encode writes the label-length byte and the compression pointer only '
-    'under dominating guards bounding them by 63 / 0x3FFF in linear normal form - both guards are missing (known finding '
-    'F32); every attribute a decoder assigns takes part in ==; every Record_* class is defined before Message, has a '
+    'under dominating guards bounding them by 63 / 0x3FFF in linear normal form (the pointer bound may equally be enforced on every store into '
+    'the compression dictionary) - both guards were missing (finding F32, repaired by commit 485922f; the two reverts are '
+    'self-test mutants reported on the finding\'s constructs); every attribute a decoder assigns takes part in ==; every Record_* class is defined before Message, has a '
     'distinct TYPE and accepts ttl=. BOUNDED second layer (encoders/decoders interpreted on enumerated messages, judged '
     'through compareAttributes and by an independent RFC 1035/2535/6891 parser written in the checker): every record class, '
     'all header flags, four sections with distinct counts, names with shared suffixes / case variants / 40 nesting levels / '
@@ -880,6 +881,11 @@ def check(ctx):
         check_registry(ctx, mod, consts)
 
 
+_LABEL_GUARD = ("            if ind > 63:\n                # The two high bits of the length byte are reserved (they mark\n                # a compression pointer).\n"
+                "                raise ValueError(f\"DNS label longer than 63 bytes: {label!r}\")\n")
+_OFFSET_GUARD = ("                    offset = strio.tell() + Message.headerSize\n                    # A compression pointer carries a 14 bit offset: names\n"
+                 "                    # written further into the message cannot be referred to.\n                    if offset < 0x4000:\n                        compDict[name] = offset\n")
+
 MUTANTS = [
     Mutant("query-fields-swapped-in-encode", DNS, '        strio.write(struct.pack("!HH", self.type, self.cls))\n', '        strio.write(struct.pack("!HH", self.cls, self.type))\n', expect_rule=None),
     Mutant("soa-signedness", DNS, '        r = struct.unpack("!LlllL", readPrecisely(strio, 20))\n', '        r = struct.unpack("!LLllL", readPrecisely(strio, 20))\n', expect_rule=None),
@@ -932,7 +938,12 @@ MUTANTS = [
            "            label = readPrecisely(strio, l)\n            if len(self.name) + l > 128:\n                raise ValueError(\"name too long\")\n            if self.name == b\"\":\n",
            expect_rule=None),
     Mutant("pointer-marker", DNS, '                    strio.write(struct.pack("!H", 0xC000 | compDict[name]))\n', '                    strio.write(struct.pack("!H", 0x8000 | compDict[name]))\n', expect_rule=None),
-    Mutant("offset-without-header", DNS, "                    compDict[name] = strio.tell() + Message.headerSize\n", "                    compDict[name] = strio.tell()\n", expect_rule=None),
+    Mutant("offset-without-header", DNS, "                    offset = strio.tell() + Message.headerSize\n", "                    offset = strio.tell()\n", expect_rule=None),
+    # the repaired finding F32 (commit 485922f): reverting either half of the fix must be reported on its construct
+    Mutant("F32-fix-reverted-label-length-unchecked", DNS, _LABEL_GUARD, "", expect_rule="name/label-length-limit"),
+    Mutant("F32-fix-reverted-offset-recorded-unconditionally", DNS, _OFFSET_GUARD, "                    compDict[name] = strio.tell() + Message.headerSize\n", expect_rule="name/pointer-offset-limit"),
+    Mutant("F32-fix-weakened-label-limit-64", DNS, "            if ind > 63:\n", "            if ind > 64:\n", expect_rule="name/label-length-limit"),
+    Mutant("F32-fix-weakened-offset-limit-inclusive", DNS, "                    if offset < 0x4000:\n", "                    if offset <= 0x4000:\n", expect_rule="name/pointer-offset-limit"),
 ]
 
 SILENT = [
@@ -949,8 +960,9 @@ SILENT = [
            "        self.type, self.cls = struct.unpack(\"!HH\", readPrecisely(strio, struct.calcsize(\"!HH\")))\n"),
     Silent("hinfo-encode-split-writes", DNS, '        strio.write(struct.pack("!B", len(self.cpu)) + self.cpu)\n', '        strio.write(struct.pack("!B", len(self.cpu)))\n        strio.write(self.cpu)\n'),
     Silent("truncation-flipped-comparison", DNS, "        if self.maxSize and size > self.maxSize:\n", "        if self.maxSize and not (size <= self.maxSize):\n"),
-    Silent("f32-repaired", DNS, "            strio.write(_ord2bytes(ind))\n            strio.write(label)\n", "            if ind > 63:\n                raise ValueError(\"label too long\")\n            strio.write(_ord2bytes(ind))\n            strio.write(label)\n",
-           more=[(DNS, "                if name in compDict:\n", "                if name in compDict and compDict[name] < 0x4000:\n")]),
+    Silent("label-guard-on-the-label-not-le", DNS, "            if ind > 63:\n", "            if not len(label) <= 63:\n"),
+    Silent("pointer-guard-at-the-write-site", DNS, _OFFSET_GUARD, "                    compDict[name] = strio.tell() + Message.headerSize\n",
+           more=[(DNS, "                if name in compDict:\n", "                if name in compDict and compDict[name] <= 0x3FFF:\n")]),
     Silent("visited-as-list-renamed", DNS, "        visited = set()\n        self.name = b\"\"\n", "        seenOffsets = []\n        self.name = b\"\"\n",
            more=[(DNS, "                if new_off in visited:\n                    raise ValueError(\"Compression loop in encoded name\")\n                visited.add(new_off)\n",
                   "                if new_off in seenOffsets:\n                    raise ValueError(\"Compression loop in encoded name\")\n                seenOffsets.append(new_off)\n")]),
